@@ -121,3 +121,118 @@ class SpecTree:
         if return_distance:
             return ind, dst
         return ind
+
+
+# ------------------------------------------------------------------------------------------------
+# in-memory file system with fault injection
+# ------------------------------------------------------------------------------------------------
+class InjectedFault(OSError):
+    pass
+
+
+class ModelFS:
+    """In-memory map path -> content.  Every I/O entry point calls `fault(what)` first; whether
+    that call fails is a symbolic Boolean (at most `max_faults` per run)."""
+
+    def __init__(self, ctx, max_faults=1, faultable=None):
+        self.ctx = ctx
+        self.files = {}
+        self.dirs = set()
+        self.calls = 0
+        self.faults = 0
+        self.max_faults = max_faults
+        self.faultable = faultable          # None = every call kind
+        self.log = []
+        self.counter = 0
+        self.open_handles = 0
+
+    def fault(self, what):
+        k = self.calls
+        self.calls += 1
+        self.log.append(what)
+        if self.faults >= self.max_faults:
+            return
+        if self.faultable is not None and what.split(":")[0] not in self.faultable:
+            return
+        if bool(self.ctx.bool("fault_%d" % k)):
+            self.faults += 1
+            self.log.append("FAULT at " + what)
+            raise InjectedFault("injected fault: " + what)
+
+    def fresh(self, prefix):
+        self.counter += 1
+        return "%s%d" % (prefix, self.counter)
+
+    # ---- file objects
+    def open(self, path, mode="r", *a, **k):
+        path = str(path)
+        self.fault("open:" + mode)
+        if "r" in mode and "+" not in mode:
+            if path not in self.files:
+                raise FileNotFoundError(path)
+            return ModelFile(self, path, mode)
+        self.files[path] = ()               # created / truncated
+        return ModelFile(self, path, mode)
+
+    def unlink(self, path):
+        path = str(path)
+        self.fault("unlink")
+        if path not in self.files:
+            raise FileNotFoundError(path)
+        del self.files[path]
+
+    def exists(self, path):
+        return str(path) in self.files or str(path) in self.dirs
+
+    def isfile(self, path):
+        return str(path) in self.files
+
+    def listdir(self, d):
+        d = str(d).rstrip("/")
+        return sorted(p[len(d) + 1:] for p in self.files if p.startswith(d + "/") and "/" not in p[len(d) + 1:])
+
+    def under(self, d):
+        d = str(d).rstrip("/")
+        return [p for p in list(self.files) + list(self.dirs) if p == d or p.startswith(d + "/")]
+
+
+class ModelFile:
+    def __init__(self, fs, path, mode):
+        self.fs = fs
+        self.name = path
+        self.mode = mode
+        self.closed = False
+        self.pos = 0
+        fs.open_handles += 1
+
+    def write(self, chunk):
+        if self.closed:
+            raise ValueError("I/O operation on closed file")
+        self.fs.files[self.name] = tuple(self.fs.files.get(self.name, ())) + (chunk,)
+        return 1
+
+    def read(self, n=-1):
+        if self.closed:
+            raise ValueError("I/O operation on closed file")
+        data = self.fs.files[self.name]
+        out = data[self.pos:]
+        self.pos = len(data)
+        return out
+
+    def chunks(self):
+        return tuple(self.fs.files[self.name])
+
+    def close(self):
+        if not self.closed:
+            self.closed = True
+            self.fs.open_handles -= 1
+
+    def flush(self):
+        pass
+
+    def __enter__(self):
+        return self
+
+    def __exit__(self, *exc):
+        self.close()
+        return False
